@@ -221,6 +221,9 @@ func (e *Environment) makeRef(name string) (*Reference, bool) {
 		if r, isRef := obj.(Reference); isRef {
 			log.Debugf("makeRef(%s) found ref %s in %d", name, r.Name, r.RefEnv.depth)
 			ref = r // set and return the original ref instead of ref of ref.
+			if v := r.RefEnv.store[r.Name]; v != nil {
+				obj = v // judge cacheability on the referenced value, not on the intermediate reference.
+			}
 		}
 		orig.store[name] = ref
 		// Constants and functions of the root environment are not misses; anything captured from an enclosing
